@@ -317,6 +317,23 @@ def run(ctx):
         ps = [p for p in Interp(fb, P()).run(bs[0], [Sym(a) for a in args]) if p.status != "unreachable"]
         s_ = show(ps[0].result) if len(ps) == 1 and ps[0].status == "return" else "%d paths" % len(ps)
         nd += 1
+        # "n copies of i" may be spelled repeat(i).take(n), (0..n).map(|_| i), repeat_n(i, n)
+        if len(ps) == 1 and ps[0].status == "return" and name in ("partial_nth", "partial_nth_relaxed"):
+            from analysis.interp import App as _App, Closure as _Closure, Variant as _Variant, Const as _Const
+            r_ = ps[0].result
+            if isinstance(r_, _App) and len(r_.args) >= 2:
+                x_ = r_.args[1]
+                copies = False
+                if isinstance(x_, _App) and x_.fn == "std::iter::repeat_n" and [show(a) for a in x_.args] == ["i", "n"]:
+                    copies = True
+                if isinstance(x_, _App) and x_.fn == "std::iter::Iterator::map" and len(x_.args) == 2 and isinstance(x_.args[1], _Closure) \
+                        and re.match(r"^Range\{start: 0_usize, end: n\}$", show(x_.args[0])):
+                    cb_ = fb.bodies.get(x_.args[1].path)
+                    if cb_ is not None:
+                        qs_ = [q for q in Interp(fb, P()).run(cb_, [x_.args[1], Sym("k")]) if q.status != "unreachable"]
+                        copies = len(qs_) == 1 and qs_[0].status == "return" and show(qs_[0].result) == "i"
+                if copies:
+                    s_ = show(_App(r_.fn, [r_.args[0], _App("std::iter::Iterator::take", [_App("std::iter::repeat", [Sym("i")]), Sym("n")])] + list(r_.args[2:])))
         if re.match(pat, s_):
             chk.ok("R09.4", "%s delegates as documented" % name, s_[:100], loc(bs[0]["span"]))
         else:
